@@ -267,18 +267,23 @@ theorem openInner_fixed_no_panic (P : Prims) (mk dec : Bytes) :
       simp only [hc, if_false]
       split <;> rfl
 
-theorem openClientG_fixed_no_panic (P : Prims) (key data : Bytes) (hk : 136 ≤ key.length) :
+/-- for EVERY auth key — also none at all (before the key exchange has finished) or a damaged one: a key the
+derivation cannot work with is refused by `checkAuthKey` (`kdfG_short`), never reaching `generateAESIGE` -/
+theorem openClientG_fixed_no_panic (P : Prims) (key data : Bytes) :
     (openClientG .fixed P key data).isPanic = false := by
   unfold openClientG
   simp only []
   split
   · rfl
   · unfold decrypt
-    rw [kdfG_eq_spec P 8 _ key (by omega)]
-    simp only []
-    cases igeCheck _ with
-    | some e => rfl
-    | none => exact openInner_fixed_no_panic P _ _
+    by_cases hk : 136 ≤ key.length
+    · rw [kdfG_eq_spec P 8 _ key (by omega)]
+      simp only []
+      cases igeCheck _ with
+      | some e => rfl
+      | none => exact openInner_fixed_no_panic P _ _
+    · rw [kdfG_short P 8 _ key (by omega)]
+      rfl
 
 
 /-! ### D3: the receive path as found -/
